@@ -27,7 +27,8 @@ _reg(SchedProp('C07', ['Ea.C07.status_next_run', 'Ea.C07.finished_terminal', 'Ea
 _reg(SchedProp('C08', ['Ea.C08.reset_announces', 'Ea.C08.reset_accepted', 'Ea.C08.countdown_fire_pauses',
                        'Ea.C08.once_finishes', 'Ea.C08.queued_once', 'Ea.create_once_queued', 'Ea.reset_queued',
                        'Ea.sleepLoop_executes', 'Ea.C08.once_runs_at_its_instant',
-                       'Ea.C08.countdown_runs_at_reset_plus_countdown']))
+                       'Ea.C08.countdown_runs_at_reset_plus_countdown', 'Ea.step_keepH', 'Ea.C08.queued_until_executed',
+                       'Ea.C08.countdown_fires_unless_touched']))
 _reg(SchedProp('C09', ['Ea.C09.queue_sorted', 'Ea.C09.paused_never_queued', 'Ea.C09.queue_nodup',
                        'Ea.C09.insort_keeps_sorted', 'Ea.dSpec', 'Ea.oSpec', 'Ea.sleepLoop_ordered',
                        'Ea.C09.executions_in_due_order']))
